@@ -230,7 +230,7 @@ def withFcFlags (o : Model.GObj) : Option Nat → Model.GObj
 def runGen (k : Model.GKind) (a : Model.GArgs) (edits : List Model.GEdit) (bufLen : Option Nat) (fcFlags : Option Nat := none) : String :=
   match Model.create k a with
   | .ok (r, o0) => Id.run do
-    let mut o := withFcFlags o0 fcFlags
+    let mut o := if r == 0 then withFcFlags o0 fcFlags else o0
     let mut er : Int := 0
     for e in edits do
       if editApplies k e o then
@@ -503,7 +503,7 @@ def runTagOpsH (σ : Nat → Bool) (ops : List Model.TagOp) : M String := do
 open LWV.Heap in
 def runGenH (σ : Nat → Bool) (k : Model.GKind) (a : Model.GArgs) (edits : List Model.GEdit) (bufLen : Option Nat) (fcFlags : Option Nat := none) : M String := do
   let (r, g0) ← createH σ k a
-  let mut g := { g0 with o := withFcFlags g0.o fcFlags }
+  let mut g := if r == 0 then { g0 with o := withFcFlags g0.o fcFlags } else g0
   let mut er : Int := 0
   for e in edits do
     if editApplies k e g.o then
